@@ -2597,6 +2597,10 @@ namespace detail {
                 {
                     case token_kind::literal:
                     {
+                        if (i > 0 && output_stack[i-1].type() == token_kind::pipe && !stack.empty())
+                        {
+                            stack.pop_back(); // the right-hand side of a pipe replaces the piped value, as an expression token does
+                        }
                         stack.emplace_back(t.value_);
                         break;
                     }
